@@ -173,5 +173,36 @@ def relEntropySpec (eps : α) (p q : List α) : α :=
 
 end spectral
 
+/-! ### trace distance, Rényi entropy (spectral level) and purity (`utils.py:209-287`)
+
+`SpecOps` collects the operations the three functions need beyond `Analytic`: `np.abs`, `EVL**alpha`, `/`. -/
+
+class SpecOps (α : Type) where
+  abs : α → α
+  pow : α → α → α
+  div : α → α → α
+
+section spectral2
+variable {α : Type} [Zero α] [One α] [Add α] [Mul α] [Neg α] [Analytic α] [SpecOps α]
+
+/-- `get_trace_distance` (`utils.py:266-268`) after `eigvalsh(rho - sigma)`: `np.abs(EVL).sum() / 2` -/
+def traceDistSpec (evl : List α) : α := SpecOps.div (listSum (evl.map SpecOps.abs)) (1 + 1)
+
+/-- … for commuting states with spectra `p`, `q` (same eigenbasis): the eigenvalues of `rho - sigma` are `p_i - q_i` -/
+def traceDistComm (p q : List α) : α := traceDistSpec ((p.zip q).map fun pq => pq.1 + -pq.2)
+
+/-- `get_Renyi_entropy` (`utils.py:219-225`) after `eigvalsh`: `log((EVL**alpha).sum()) / (1-alpha)` -/
+def renyiSpec (alpha : α) (evl : List α) : α :=
+  SpecOps.div (Analytic.log (listSum (evl.map fun x => SpecOps.pow x alpha))) (1 + -alpha)
+
+end spectral2
+
+/-- `get_purity` (`utils.py:281-287`): `vdot(rho.reshape(-1), rho.reshape(-1))` = `Σ_ij conj(ρ_ij)·ρ_ij` -/
+def purity {α : Type} [Zero α] [Add α] [Mul α] [Conj α] (n : Nat) (ρ : Nat → Nat → α) : α :=
+  sumRange n fun i => sumRange n fun j => conj (ρ i j) * ρ i j
+
+/-- `N0 = (EVL < zero_eps).sum()` (`_internal.py:59`) for an arbitrary threshold; `lt x eps` decides `x < eps` -/
+def cutCountBelow {β : Type} (lt : β → β → Bool) (eps : β) (evl : List β) : Nat := (evl.filter fun x => lt x eps).length
+
 end Channel
 end Numqi
